@@ -37,10 +37,9 @@ impl VDq {
         forall|j: int| 0 <= j < old(self).v@.len() && j != i ==> final(self).v@[j] == old(self).v@[j] { unimplemented!() }       // state[i] -= d  (out of range aborts)
     #[verifier::external_body] pub fn to_vec(&self) -> (r: Vec<Fr>) ensures r@ == self.v@ { unimplemented!() }                       // make_contiguous().to_vec()
 }
-// vanishing_polynomial (streaming_kzg/mod.rs): prod_j (X - point_j), monic of degree n   [assumed as in units/streaming_multi.rs]
+// vanishing_polynomial (streaming_kzg/mod.rs): prod_j (X - point_j), monic of degree n   [contract proved in units/streaming_helpers.rs]
 pub open spec fn vprod(pts: Seq<Fr>, k: nat, x: FS) -> FS decreases k { if k == 0 { f_one() } else { f_mul(vprod(pts, (k - 1) as nat, x), f_sub(x, pts[k - 1]@)) } }
-#[verifier::external_body] pub fn vanishing_polynomial(points: &[Fr]) -> (r: Poly)
-    ensures forall|x: FS| #[trigger] r.ev(x) == vprod(points@, points@.len(), x), r.wf(), r.coeffs@.len() == points@.len() + 1, r.coeffs@[points@.len() as int]@ == f_one() { unimplemented!() }
+//@stub from=streaming_helpers.rs id=streaming.vanishing_polynomial vis=pub
 // what the space-efficient multi-point prover returns: the remainder (big-endian, one coefficient per point) and the commitment to a quotient q with f = q Z + r
 pub open spec fn smp_rel(ck: &CommitterKeyStream, f: Seq<Fr>, pts: Seq<Fr>, rem: Seq<Fr>, proof_v: FS, q: Seq<FS>) -> bool {
     let n = f.len(); let m = pts.len();
